@@ -28,6 +28,8 @@ EXPLANATION = (
     "`with set_random_seed(seed)`, and draws that no numpy seed controls (numba-compiled code)."
 )
 NOT_DECIDED = ["bit-identity of results", "determinism inside pygmo/dask", "stochastic third-party code that does not use numpy's legacy generator"]
+# R5 decides what draws random numbers inside numba-compiled functions: compiled helpers are not spliced into callers
+COMPILED_HELPERS_OPAQUE = True
 ASSUMPTIONS = [
     "interpreter-level np.random.<dist> draws use the legacy global state set by np.random.seed; draws inside @numba.njit code do not",
 ]
